@@ -1155,6 +1155,9 @@ def generate(unit, template_path, canary=False, extra_fns=()):
                         g.rewrites.append({"rule": "R10", "where": where, "before": anchor, "after": f"{pos}: {text}", "missed": True, "count": len(hits)})
                         continue
                     st = hits[kth].start()
+                    # names captured by the statement regex are available as $1, $2.. in the inserted text (a renamed local keeps the hint)
+                    for gi, gv in enumerate(hits[kth].groups(), 1):
+                        text = text.replace(f"${gi}", body[hits[kth].start(gi):hits[kth].end(gi)] if gv is not None else "")
                     if pos == "before-stmt":
                         body = body[:st] + " " + text + " " + body[st:]
                     else:
